@@ -13,6 +13,9 @@ pub fn walk<I: Iterator>(it: I, script: &Value, p: &dyn Fn(I::Item) -> Value) ->
     let mut obs: Vec<Value> = Vec::new();
     let (r, _, _) = measured(|| {
         let mut it = Some(it);
+        // after the first None the calls are still made (they must not panic) but no longer observed:
+        // what a non-fused iterator yields then is left open by the interface
+        let mut done = false;
         let opt = |o: Option<I::Item>| match o {
             Some(x) => json!({"some":true,"f":p(x)}),
             None => json!({"some":false}),
@@ -25,10 +28,19 @@ pub fn walk<I: Iterator>(it: I, script: &Value, p: &dyn Fn(I::Item) -> Value) ->
                     let i = it.as_mut().expect("harness: walk continues after a consuming call");
                     let o = if what == "next" { i.next() } else { i.nth(k) };
                     let none = o.is_none();
-                    obs.push(opt(o));
-                    if none {
-                        break;
-                    }
+                    if !done { obs.push(opt(o)); }
+                    if none { done = true; }
+                }
+                "size_hint" => {
+                    let i = it.as_mut().expect("harness: walk continues after a consuming call");
+                    let _ = i.size_hint();
+                    if !done { obs.push(json!({"hint":true})); }
+                }
+                "collect" => {
+                    let i = it.take().expect("harness: walk continues after a consuming call");
+                    let v: Vec<I::Item> = i.take(WALK_CAP + 1).collect();
+                    if !done { obs.push(json!({"items":v.into_iter().map(|x| p(x)).collect::<Vec<_>>()})); }
+                    break;
                 }
                 "rest" | "skip" | "step_by" => {
                     let i = it.take().expect("harness: walk continues after a consuming call");
@@ -42,23 +54,25 @@ pub fn walk<I: Iterator>(it: I, script: &Value, p: &dyn Fn(I::Item) -> Value) ->
                             for x in i.step_by(k) { if push(x) { break; } }
                         }
                     }
-                    obs.push(json!({"items":v}));
+                    if !done { obs.push(json!({"items":v})); }
                     break;
                 }
                 "fold" => {
                     let i = it.take().expect("harness: walk continues after a consuming call");
                     let v = i.fold(Vec::new(), |mut v: Vec<Value>, x| { if v.len() <= WALK_CAP { v.push(p(x)); } v });
-                    obs.push(json!({"items":v}));
+                    if !done { obs.push(json!({"items":v})); }
                     break;
                 }
                 "count" => {
                     let i = it.take().expect("harness: walk continues after a consuming call");
-                    obs.push(json!({"n":w8(i.count() as u64)}));
+                    let c = i.count();
+                    if !done { obs.push(json!({"n":w8(c as u64)})); }
                     break;
                 }
                 "last" => {
                     let i = it.take().expect("harness: walk continues after a consuming call");
-                    obs.push(opt(i.last()));
+                    let l = i.last();
+                    if !done { obs.push(opt(l)); }
                     break;
                 }
                 other => panic!("harness: bad walk step {other}"),
